@@ -137,3 +137,1243 @@ pub fn gen_c03(thorough: bool, seed: u64) -> Vec<Episode> {
     }
     eps
 }
+
+// ---------------------------------------------------------------------------------------------
+// C01
+
+pub const NOT_FORMS: [&str; 4] = ["named", "inplace", "op_val", "op_ref"];
+pub const BIN_FORMS: [&str; 8] = [
+    "named", "inplace", "ref_ref", "ref_val", "val_ref", "val_val", "assign_val", "assign_ref",
+];
+
+fn is_inplace(form: &str) -> bool {
+    form == "inplace" || form.starts_with("assign")
+}
+
+fn logic_op(g: &str, f: &str, a: usize, b: usize, scratch: usize, ops: &mut Vec<Value>) {
+    if is_inplace(f) {
+        ops.push(json!({"op": "copy", "a": a, "d": scratch}));
+        ops.push(json!({"op": "logic", "g": g, "f": f, "a": scratch, "b": b, "d": scratch}));
+    } else {
+        ops.push(json!({"op": "logic", "g": g, "f": f, "a": a, "b": b, "d": scratch}));
+    }
+}
+
+/// C01: every syntactic form of NOT / AND / OR / XOR on both types
+pub fn gen_c01(thorough: bool, seed: u64) -> Vec<Episode> {
+    let mut eps = Vec::new();
+    let mut r = rng(seed, 1);
+    let mut forms: Vec<(&str, &str)> = Vec::new();
+    for f in NOT_FORMS {
+        forms.push(("not", f));
+    }
+    for g in ["and", "or", "xor"] {
+        for f in BIN_FORMS {
+            forms.push((g, f));
+        }
+    }
+    for n in 0..=14usize {
+        let tables = structured(n, &mut r);
+        let npairs = if thorough { 8 } else if n >= 13 { 1 } else { 2 };
+        for p in 0..npairs {
+            let a = if p % 2 == 0 { random_on(n, &mut r) } else { tables[r.gen_range(0..tables.len())].clone() };
+            let b = if p % 3 == 0 { tables[r.gen_range(0..tables.len())].clone() } else { random_on(n, &mut r) };
+            for chunk in forms.chunks(if n >= 11 { 4 } else { 7 }) {
+                let mut ops = vec![load(0, n, &a), load(1, n, &b)];
+                for (k, (g, f)) in chunk.iter().enumerate() {
+                    logic_op(g, f, 0, 1, 2 + (k % 3), &mut ops);
+                }
+                eps.push(Episode { n, tys: tys_for(n), ops });
+            }
+            // an operand combined with itself
+            let mut ops = vec![load(0, n, &a)];
+            logic_op("xor", "ref_ref", 0, 0, 2, &mut ops);
+            logic_op("and", "assign_ref", 0, 0, 3, &mut ops);
+            logic_op("or", "val_val", 0, 0, 4, &mut ops);
+            eps.push(Episode { n, tys: tys_for(n), ops });
+        }
+    }
+    // exhaustive small sizes: all pairs for n <= 2, all forms; n = 3: all pairs, rotating form (thorough)
+    let max_exh = if thorough { 3 } else { 2 };
+    let mut rot = 0usize;
+    for n in 0..=max_exh {
+        let total: u64 = 1u64 << (1u64 << n);
+        for fa in 0..total {
+            let a: Vec<usize> = (0..dom(n)).filter(|&m| (fa >> m) & 1 == 1).collect();
+            let mut ops = vec![load(0, n, &a)];
+            let mut cnt = 0;
+            for fb in 0..total {
+                let b: Vec<usize> = (0..dom(n)).filter(|&m| (fb >> m) & 1 == 1).collect();
+                ops.push(load(1, n, &b));
+                if n <= 2 {
+                    let fs: Vec<(&str, &str)> = if n <= 1 || thorough {
+                        forms.clone()
+                    } else {
+                        rot += 1;
+                        (0..4).map(|k| forms[(rot * 5 + k * 7) % forms.len()]).collect()
+                    };
+                    for (g, f) in fs {
+                        logic_op(g, f, 0, 1, 2, &mut ops);
+                    }
+                } else {
+                    rot += 1;
+                    let (g, f) = forms[rot % forms.len()];
+                    logic_op(g, f, 0, 1, 2, &mut ops);
+                }
+                cnt += 1;
+                if cnt % 16 == 0 {
+                    eps.push(Episode { n, tys: "both", ops });
+                    ops = vec![load(0, n, &a)];
+                }
+            }
+            if ops.len() > 1 {
+                eps.push(Episode { n, tys: "both", ops });
+            }
+        }
+    }
+    eps
+}
+
+// ---------------------------------------------------------------------------------------------
+// C06
+
+fn from_cof(n: usize, c0: &[usize], c1: &[usize], v: usize) -> Vec<usize> {
+    on_from_fn(n, |m| {
+        if (m >> v) & 1 == 1 {
+            c1.binary_search(&m).is_ok()
+        } else {
+            c0.binary_search(&m).is_ok()
+        }
+    })
+}
+
+fn complement(n: usize, f: &[usize]) -> Vec<usize> {
+    on_from_fn(n, |m| f.binary_search(&m).is_err())
+}
+
+/// make a function independent of v (copy the x_v = 0 half)
+fn indep(n: usize, f: &[usize], v: usize) -> Vec<usize> {
+    on_from_fn(n, |m| f.binary_search(&(m & !(1 << v))).is_ok())
+}
+
+fn toggle(f: &[usize], m: usize) -> Vec<usize> {
+    let mut g: Vec<usize> = f.to_vec();
+    match g.binary_search(&m) {
+        Ok(i) => {
+            g.remove(i);
+        }
+        Err(i) => g.insert(i, m),
+    }
+    g
+}
+
+/// C06: top_decomposition / unateness, every variable, with cofactor-structured families and
+/// one-bit-off near misses ("predicate true on all words but one")
+pub fn gen_c06(thorough: bool, seed: u64) -> Vec<Episode> {
+    let mut eps = Vec::new();
+    let mut r = rng(seed, 6);
+    for n in 1..=12usize {
+        // (table, variables to query)
+        let all_vars: Vec<usize> = (0..n).collect();
+        let mut tabs: Vec<(Vec<usize>, Vec<usize>)> = structured(n, &mut r).into_iter().map(|t| (t, all_vars.clone())).collect();
+        let zero: Vec<usize> = vec![];
+        let one: Vec<usize> = (0..dom(n)).collect();
+        let reps = if thorough { 4 } else { 1 };
+        for _ in 0..reps {
+            for v in 0..n {
+                let g = indep(n, &random_on(n, &mut r), v);
+                let h = indep(n, &random_on(n, &mut r), v);
+                let ng = complement(n, &g);
+                let fam: Vec<Vec<usize>> = vec![
+                    from_cof(n, &zero, &one, v),
+                    from_cof(n, &one, &zero, v),
+                    from_cof(n, &zero, &g, v),
+                    from_cof(n, &g, &one, v),
+                    from_cof(n, &one, &g, v),
+                    from_cof(n, &g, &zero, v),
+                    from_cof(n, &g, &ng, v),
+                    from_cof(n, &g, &g, v),
+                    from_cof(n, &g, &h, v),
+                    from_cof(n, &g, &on_from_fn(n, |m| g.binary_search(&m).is_ok() || h.binary_search(&m).is_ok()), v),
+                    from_cof(n, &on_from_fn(n, |m| g.binary_search(&m).is_ok() || h.binary_search(&m).is_ok()), &g, v),
+                ];
+                // the family's own variable plus two others (all of them for small n / thorough)
+                let qv: Vec<usize> = if n <= 6 || thorough {
+                    all_vars.clone()
+                } else {
+                    let mut q = vec![v, r.gen_range(0..n), (v + 1) % n];
+                    q.sort();
+                    q.dedup();
+                    q
+                };
+                for (k, f) in fam.iter().enumerate() {
+                    if !thorough && n > 6 && (k + v + n) % 2 != 0 {
+                        continue;
+                    }
+                    tabs.push((f.clone(), qv.clone()));
+                    // one-bit-off near misses: the predicate holds on every word but one
+                    tabs.push((toggle(f, r.gen_range(0..dom(n))), qv.clone()));
+                    if dom(n) > 64 && (thorough || k % 2 == 0) {
+                        tabs.push((toggle(f, dom(n) - 1 - r.gen_range(0..64)), qv.clone()));
+                    }
+                }
+            }
+        }
+        for (t, qv) in tabs {
+            let mut ops = vec![load(0, n, &t)];
+            for v in qv {
+                ops.push(json!({"op": "decomp", "a": 0, "i": v}));
+                ops.push(json!({"op": "unate", "a": 0, "i": v, "f": "pos"}));
+                ops.push(json!({"op": "unate", "a": 0, "i": v, "f": "neg"}));
+            }
+            eps.push(Episode { n, tys: tys_for(n), ops });
+        }
+    }
+    if thorough {
+        for n in 1..=4usize {
+            let total: u64 = 1u64 << (1u64 << n);
+            for f in 0..total {
+                let on: Vec<usize> = (0..dom(n)).filter(|&m| (f >> m) & 1 == 1).collect();
+                let mut ops = vec![load(0, n, &on)];
+                for v in 0..n {
+                    ops.push(json!({"op": "decomp", "a": 0, "i": v}));
+                    ops.push(json!({"op": "unate", "a": 0, "i": v, "f": "pos"}));
+                    ops.push(json!({"op": "unate", "a": 0, "i": v, "f": "neg"}));
+                }
+                eps.push(Episode { n, tys: "both", ops });
+            }
+        }
+    }
+    eps
+}
+
+// ---------------------------------------------------------------------------------------------
+// C11
+
+fn usize_arg(m: &mut serde_json::Map<String, Value>, name: &str, v: usize) {
+    crate::exec::put_usize(m, name, v);
+}
+
+fn ctor_k(op: &str, d: usize, n: usize, k: usize) -> Value {
+    let mut m = serde_json::Map::new();
+    m.insert("op".into(), json!(op));
+    m.insert("d".into(), json!(d));
+    m.insert("n".into(), json!(n));
+    usize_arg(&mut m, "k", k);
+    Value::Object(m)
+}
+
+/// C11: named constructors
+pub fn gen_c11(thorough: bool, seed: u64) -> Vec<Episode> {
+    let mut eps = Vec::new();
+    let mut r = rng(seed, 11);
+    for n in 0..=14usize {
+        let mut ops: Vec<Value> = Vec::new();
+        for op in ["zero", "one", "parity", "majority"] {
+            ops.push(json!({"op": op, "d": 0, "n": n}));
+        }
+        ops.push(json!({"op": "default", "d": 1, "n": n}));
+        eps.push(Episode { n, tys: tys_for(n), ops });
+        let vars: Vec<usize> = if n <= 12 || thorough { (0..n).collect() } else { vec![0, 5, 6, n - 1] };
+        let mut ops: Vec<Value> = Vec::new();
+        for i in vars {
+            ops.push(json!({"op": "nth_var", "d": 0, "n": n, "i": i}));
+        }
+        if !ops.is_empty() {
+            eps.push(Episode { n, tys: tys_for(n), ops });
+        }
+        let mut ks: Vec<usize> = (0..=n + 2).collect();
+        ks.extend([63, 64, 65, 127, 128, usize::MAX, usize::MAX - 1, 1usize << 32]);
+        if n >= 13 && !thorough {
+            ks = vec![0, 1, n / 2, n, n + 1, 64, usize::MAX];
+        }
+        for chunk in ks.chunks(6) {
+            let mut ops: Vec<Value> = Vec::new();
+            for &k in chunk {
+                ops.push(ctor_k("threshold", 0, n, k));
+                ops.push(ctor_k("equals", 1, n, k));
+            }
+            eps.push(Episode { n, tys: tys_for(n), ops });
+        }
+        // count masks: all of them for small n, structured + random 64-bit above
+        let mut cs: Vec<u64> = Vec::new();
+        if n <= 5 || (thorough && n <= 7) {
+            for c in 0..(1u64 << (n + 1)) {
+                cs.push(c);
+            }
+        } else {
+            for k in 0..=n {
+                cs.push(1u64 << k);
+            }
+            cs.push(0);
+            cs.push((1u64 << (n + 1)) - 1);
+            cs.push(0xaaaa_aaaa_aaaa_aaaa & ((1u64 << (n + 1)) - 1));
+        }
+        let nrand = if thorough { 12 } else { 3 };
+        for _ in 0..nrand {
+            cs.push(r.gen::<u64>());
+            cs.push(r.gen::<u64>() & ((1u64 << (n + 1)) - 1));
+        }
+        cs.push(!0u64);
+        cs.push(1u64 << 63);
+        if n >= 13 && !thorough {
+            cs.truncate(6);
+        }
+        for chunk in cs.chunks(8) {
+            let mut ops: Vec<Value> = Vec::new();
+            for &c in chunk {
+                ops.push(json!({"op": "symmetric", "d": 0, "n": n, "cb": crate::exec::bits_of(c), "c_s": c.to_string()}));
+            }
+            eps.push(Episode { n, tys: tys_for(n), ops });
+        }
+    }
+    eps
+}
+
+// ---------------------------------------------------------------------------------------------
+// C07
+
+fn popcount(m: usize) -> usize {
+    m.count_ones() as usize
+}
+
+/// Families of functions with heavy sub-function sharing
+fn bdd_family(n: usize, r: &mut rand::rngs::StdRng, kind: usize) -> Vec<Vec<usize>> {
+    let d = dom(n);
+    match kind {
+        // random functions
+        0 => (0..r.gen_range(1..=4)).map(|_| random_on(n, r)).collect(),
+        // adder bits: a = low half of the variables, b = high half
+        1 => {
+            let h = n / 2;
+            let sum = |m: usize| (m & ((1 << h) - 1)) + (m >> h);
+            (0..4usize).map(|bit| on_from_fn(n, |m| (sum(m) >> bit) & 1 == 1)).collect()
+        }
+        // symmetric family: thresholds and parity
+        2 => vec![
+            on_from_fn(n, |m| popcount(m) >= n / 2),
+            on_from_fn(n, |m| popcount(m) >= (n + 1) / 2 + 1),
+            on_from_fn(n, |m| popcount(m) % 2 == 1),
+            on_from_fn(n, |m| popcount(m) == n / 3),
+        ],
+        // a function with its cofactors, a shifted copy and complements in the same list
+        3 => {
+            let f = random_on(n, r);
+            let mut v = vec![f.clone(), complement(n, &f)];
+            if n >= 1 {
+                let top = n - 1;
+                v.push(indep(n, &f, top));
+                let i = r.gen_range(0..n);
+                v.push(on_from_fn(n, |m| f.binary_search(&(m ^ (1 << i))).is_ok()));
+            }
+            v
+        }
+        // x_h ? g : !g with g a non-literal function of the lower variables (complement sharing above the word boundary)
+        4 => {
+            if n < 3 {
+                return vec![random_on(n, r)];
+            }
+            let h = if n > 7 { r.gen_range(6..n) } else { n - 1 };
+            let glow = random_on(h, r);
+            let g = on_from_fn(n, |m| glow.binary_search(&(m & ((1 << h) - 1))).is_ok());
+            let f = on_from_fn(n, |m| {
+                let gv = g.binary_search(&m).is_ok();
+                if (m >> h) & 1 == 1 { gv } else { !gv }
+            });
+            vec![f, g]
+        }
+        // mux tree: the top variables select one of the low variables
+        5 => {
+            if n < 3 {
+                return vec![random_on(n, r)];
+            }
+            let s = if n >= 6 { 2 } else { 1 };
+            let low = n - s;
+            let f = on_from_fn(n, |m| {
+                let sel = (m >> low) % low.max(1);
+                (m >> sel) & 1 == 1
+            });
+            vec![f.clone(), on_from_fn(n, |m| f.binary_search(&m).is_ok() ^ (popcount(m) % 2 == 1))]
+        }
+        // sparse / single-minterm and literal-like functions
+        6 => vec![sparse_on(n, r, 2), on_from_fn(n, |m| m & 1 == 1), complement(n, &on_from_fn(n, |m| (m >> (n.max(1) - 1)) & 1 == 1)), vec![], (0..d).collect()],
+        // word-periodic and "equal in every word but one"
+        _ => {
+            let t = structured(n, r);
+            let k = t.len();
+            vec![t[k - 4].clone(), t[k - 5 % k].clone(), t[k - 3].clone()]
+        }
+    }
+}
+
+/// C07: bdd_complexity on lists of 0..4 functions (order, duplicates and complements varied)
+pub fn gen_c07(thorough: bool, seed: u64) -> Vec<Episode> {
+    let mut eps = Vec::new();
+    let mut r = rng(seed, 7);
+    for n in 0..=11usize {
+        let rounds = if thorough { if n >= 10 { 12 } else { 30 } } else if n >= 10 { 2 } else if n >= 8 { 4 } else { 8 };
+        // the empty list
+        eps.push(Episode { n, tys: tys_for(n), ops: vec![json!({"op": "bdd", "xs": []})] });
+        for round in 0..rounds {
+            let kind = round % 8;
+            let mut fam = bdd_family(n, &mut r, kind);
+            fam.truncate(4);
+            let mut ops: Vec<Value> = Vec::new();
+            for (s, f) in fam.iter().enumerate() {
+                ops.push(load(s, n, f));
+            }
+            let k = fam.len();
+            let all: Vec<usize> = (0..k).collect();
+            ops.push(json!({"op": "bdd", "xs": all}));
+            // single functions, reversed order, duplicates
+            ops.push(json!({"op": "bdd", "xs": [r.gen_range(0..k)]}));
+            let mut rev = all.clone();
+            rev.reverse();
+            rev.push(r.gen_range(0..k));
+            ops.push(json!({"op": "bdd", "xs": rev}));
+            // complement one of the listed functions (via the library's own `!`, a setup step here)
+            let c = r.gen_range(0..k);
+            ops.push(json!({"op": "logic", "g": "not", "f": "op_ref", "a": c, "b": c, "d": 5}));
+            let mut withc: Vec<usize> = all.iter().map(|&x| if x == c { 5 } else { x }).collect();
+            ops.push(json!({"op": "bdd", "xs": withc.clone()}));
+            withc.push(c);
+            ops.push(json!({"op": "bdd", "xs": withc}));
+            eps.push(Episode { n, tys: tys_for(n), ops });
+        }
+    }
+    // exhaustive: every single function of up to 3 variables (4 in the thorough tier: sampled pairs too)
+    let max_exh = if thorough { 4 } else { 3 };
+    for n in 0..=max_exh {
+        let total: u64 = 1u64 << (1u64 << n);
+        let mut ops: Vec<Value> = Vec::new();
+        for f in 0..total {
+            let on: Vec<usize> = (0..dom(n)).filter(|&m| (f >> m) & 1 == 1).collect();
+            ops.push(load(0, n, &on));
+            ops.push(json!({"op": "bdd", "xs": [0]}));
+            if f % 7 == 0 {
+                let g = r.gen_range(0..total);
+                let on2: Vec<usize> = (0..dom(n)).filter(|&m| (g >> m) & 1 == 1).collect();
+                ops.push(load(1, n, &on2));
+                ops.push(json!({"op": "bdd", "xs": [0, 1]}));
+            }
+            if ops.len() > 60 {
+                eps.push(Episode { n, tys: "both", ops });
+                ops = Vec::new();
+            }
+        }
+        if !ops.is_empty() {
+            eps.push(Episode { n, tys: "both", ops });
+        }
+    }
+    eps
+}
+
+// ---------------------------------------------------------------------------------------------
+// C08
+
+pub const REL_FORMS: [&str; 10] = ["cmp", "pcmp", "lt", "le", "gt", "ge", "eq", "ne", "max", "min"];
+
+fn rel(a: usize, b: usize, f: &str) -> Value {
+    json!({"op": "rel", "a": a, "b": b, "f": f})
+}
+
+/// C08: ordering observations; complete iterator runs; hooked successor steps
+pub fn gen_c08(thorough: bool, seed: u64) -> Vec<Episode> {
+    let mut eps = Vec::new();
+    let mut r = rng(seed, 8);
+    for n in 0..=12usize {
+        let tables = structured(n, &mut r);
+        let npairs = if thorough { 40 } else if n >= 11 { 6 } else { 12 };
+        for p in 0..npairs {
+            let a = tables[r.gen_range(0..tables.len())].clone();
+            let b = match p % 4 {
+                // differ in exactly one assignment (often in a low word while high words are equal, and vice versa)
+                0 => toggle(&a, r.gen_range(0..dom(n))),
+                1 => toggle(&toggle(&a, 0), dom(n) - 1),
+                2 => tables[r.gen_range(0..tables.len())].clone(),
+                _ => random_on(n, &mut r),
+            };
+            let c = if p % 2 == 0 { toggle(&b, r.gen_range(0..dom(n))) } else { random_on(n, &mut r) };
+            let mut ops = vec![load(0, n, &a), load(1, n, &b), load(2, n, &c)];
+            let nf = if n >= 11 && !thorough { 3 } else { 10 };
+            for k in 0..nf {
+                let f = REL_FORMS[(k + p) % 10];
+                ops.push(rel(0, 1, f));
+                ops.push(rel(1, 0, f));
+                ops.push(rel(1, 2, f));
+                ops.push(rel(0, 2, f));
+            }
+            ops.push(rel(0, 0, "cmp"));
+            ops.push(rel(1, 1, "le"));
+            eps.push(Episode { n, tys: tys_for(n), ops });
+        }
+    }
+    // cross-size comparisons (dynamic Lut only): size dominates the table
+    for n1 in 0..=9usize {
+        for n2 in 0..=9usize {
+            if n1 == n2 || (!thorough && (n1 + 2 * n2) % 3 != 0) {
+                continue;
+            }
+            let a = if r.gen() { (0..dom(n1)).collect() } else { random_on(n1, &mut r) };
+            let b = if r.gen() { vec![] } else { random_on(n2, &mut r) };
+            let mut ops = vec![load(0, n1, &a), load(1, n2, &b)];
+            for f in REL_FORMS {
+                ops.push(rel(0, 1, f));
+                ops.push(rel(1, 0, f));
+            }
+            eps.push(Episode { n: n1, tys: "lut", ops });
+        }
+    }
+    // complete runs of the public iterator
+    let max_it = if thorough { 4 } else { 3 };
+    for n in 0..=max_it {
+        let total: usize = 1usize << (1usize << n);
+        let mut ops = vec![json!({"op": "iter_start", "n": n})];
+        for _ in 0..total + 3 {
+            ops.push(json!({"op": "iter_next", "d": 0}));
+        }
+        eps.push(Episode { n, tys: "both", ops });
+    }
+    // first steps of the iterator for larger sizes
+    for n in 5..=12usize {
+        let mut ops = vec![json!({"op": "iter_start", "n": n})];
+        for _ in 0..40 {
+            ops.push(json!({"op": "iter_next", "d": 0}));
+        }
+        eps.push(Episode { n, tys: "both", ops });
+    }
+    // hooked successor from arbitrary starting tables
+    let max_h = if thorough { 12 } else { 9 };
+    for n in 0..=max_h {
+        let d = dom(n);
+        let mut starts: Vec<Vec<usize>> = structured(n, &mut r);
+        // low words all ones: k full low words, then a word with a low run of ones
+        if d > 64 {
+            for k in 1..(d / 64) {
+                if k > 3 && k != d / 64 - 1 && !thorough {
+                    continue;
+                }
+                let run = r.gen_range(0..64);
+                let hi = random_on(n, &mut r);
+                starts.push(on_from_fn(n, |m| m < 64 * k + run || (m > 64 * k + run && hi.binary_search(&m).is_ok())));
+                starts.push(on_from_fn(n, |m| m < 64 * k));
+                starts.push(on_from_fn(n, |m| m < 64 * k || m >= 64 * (k + 1)));
+            }
+        }
+        starts.push((0..d).collect());
+        starts.push((0..d - 1).collect());
+        starts.push((1..d).collect());
+        for s in starts {
+            let mut ops = vec![load(0, n, &s)];
+            for _ in 0..3 {
+                ops.push(json!({"op": "vnext", "a": 0}));
+            }
+            eps.push(Episode { n, tys: tys_for(n), ops });
+        }
+    }
+    eps
+}
+
+// ---------------------------------------------------------------------------------------------
+// C09
+
+pub const TEXT_FORMS: [&str; 6] = ["hex", "bin", "display", "to_string", "lowerhex", "binary"];
+
+fn hex_width(n: usize) -> usize {
+    if n <= 2 { 1 } else { 1 << (n - 2) }
+}
+
+/// the reference rendering used only to build *inputs* for the parser (the expected results
+/// are computed by the specification)
+fn hex_bytes(n: usize, on: &[usize]) -> Vec<u8> {
+    let w = hex_width(n);
+    let mut nib = vec![0u8; w];
+    for &m in on {
+        nib[m / 4] |= 1 << (m % 4);
+    }
+    nib.iter().rev().map(|&v| b"0123456789abcdef"[v as usize]).collect()
+}
+
+fn from_hex(d: usize, n: usize, s: &[u8]) -> Value {
+    json!({"op": "from_hex", "d": d, "n": n, "s": s})
+}
+
+/// C09: printing through every formatting entry point; parsing of printed strings, of their
+/// single-byte mutations, of wrong lengths, and exhaustively over a byte alphabet for small n
+pub fn gen_c09(thorough: bool, seed: u64) -> Vec<Episode> {
+    let mut eps = Vec::new();
+    let mut r = rng(seed, 9);
+    let bad: [u8; 12] = [b'+', b'-', b' ', b'g', b'x', b'G', b'/', b':', b'@', b'`', 0, 0x7f];
+    for n in 0..=12usize {
+        let tables = structured(n, &mut r);
+        let cnt = if thorough { tables.len() } else if n >= 10 { 4 } else { 8 };
+        for t in tables.iter().rev().take(cnt) {
+            let mut ops = vec![load(0, n, t)];
+            for f in TEXT_FORMS {
+                if n >= 10 && !thorough && (f == "to_string" || f == "lowerhex") {
+                    continue;
+                }
+                ops.push(json!({"op": "text", "a": 0, "f": f}));
+            }
+            // parse the printed form back
+            let h = hex_bytes(n, t);
+            ops.push(from_hex(1, n, &h));
+            // upper-case variant
+            let up: Vec<u8> = h.iter().map(|b| b.to_ascii_uppercase()).collect();
+            if up != h {
+                ops.push(from_hex(2, n, &up));
+            }
+            eps.push(Episode { n, tys: tys_for(n), ops });
+        }
+        // mutations of a printed string
+        let base = hex_bytes(n, &random_on(n, &mut r));
+        let w = base.len();
+        let mut muts: Vec<Vec<u8>> = Vec::new();
+        let mut positions: Vec<usize> = vec![0, w - 1, w / 2];
+        if w > 16 {
+            positions.extend([15, 16, 17, w - 16, w - 17]);
+        }
+        for _ in 0..(if thorough { 8 } else { 2 }) {
+            positions.push(r.gen_range(0..w));
+        }
+        positions.sort();
+        positions.dedup();
+        for &p in &positions {
+            for &b in &bad {
+                if !thorough && w > 64 && (p + b as usize) % 3 != 0 {
+                    continue;
+                }
+                let mut s = base.clone();
+                s[p] = b;
+                muts.push(s);
+            }
+            // a 2-byte UTF-8 character replacing two digits (also straddling 16-byte chunk boundaries)
+            if p + 1 < w {
+                let mut s = base.clone();
+                s[p] = 0xc3;
+                s[p + 1] = 0xa9;
+                muts.push(s);
+            }
+            // a 2-byte character replacing one digit (length one too many in bytes)
+            let mut s = base.clone();
+            s.splice(p..p + 1, [0xc3u8, 0xa9]);
+            muts.push(s);
+        }
+        // wrong lengths 0 .. w + 2
+        let lens: Vec<usize> = if w <= 16 || thorough { (0..=w + 2).collect() } else { vec![0, 1, w - 16, w - 1, w + 1, w + 2, w + 16, 2 * w] };
+        for l in lens {
+            if l == w {
+                continue;
+            }
+            let s: Vec<u8> = (0..l).map(|k| base[k % w]).collect();
+            muts.push(s);
+        }
+        // signs in front of a shorter number, per chunk
+        for k in 0..(w / 16).max(1) {
+            let mut s = base.clone();
+            s[(k * 16).min(w - 1)] = b'+';
+            muts.push(s);
+        }
+        // digits too large for the size
+        if n < 2 {
+            for b in b"0123456789abcdefABCDEF" {
+                muts.push(vec![*b]);
+            }
+        }
+        for chunk in muts.chunks(20) {
+            let ops: Vec<Value> = chunk.iter().map(|s| from_hex(0, n, s)).collect();
+            eps.push(Episode { n, tys: tys_for(n), ops });
+        }
+    }
+    // exhaustive over an alphabet, n <= 3, all lengths up to width + 1
+    let alpha: Vec<u8> = if thorough { b"0123456789abcdefAF+- gxG".to_vec() } else { b"0137af9cAF+- gx".to_vec() };
+    for n in 0..=3usize {
+        let w = hex_width(n);
+        let mut all: Vec<Vec<u8>> = vec![vec![]];
+        let mut cur: Vec<Vec<u8>> = vec![vec![]];
+        for _ in 0..=w {
+            let mut nxt = Vec::new();
+            for s in &cur {
+                for &b in &alpha {
+                    let mut t = s.clone();
+                    t.push(b);
+                    nxt.push(t);
+                }
+            }
+            all.extend(nxt.iter().cloned());
+            cur = nxt;
+        }
+        for chunk in all.chunks(60) {
+            let ops: Vec<Value> = chunk.iter().map(|s| from_hex(0, n, s)).collect();
+            eps.push(Episode { n, tys: "both", ops });
+        }
+    }
+    eps
+}
+
+// ---------------------------------------------------------------------------------------------
+// Random call histories (C02, C10, C17's valid workload)
+
+pub struct HistCfg {
+    pub len: usize,
+    pub queries: bool,    // decomp / unate / text / bdd / info / value observations
+    pub relforms: &'static [&'static str],
+    pub canon_max_n: usize,
+    pub allow_random: bool,
+    pub reload: bool,
+}
+
+fn valid_hex(n: usize, r: &mut rand::rngs::StdRng) -> Vec<u8> {
+    let w = hex_width(n);
+    (0..w)
+        .map(|_| {
+            let v: u8 = match n {
+                0 => r.gen_range(0..2),
+                1 => r.gen_range(0..4),
+                _ => r.gen_range(0..16),
+            };
+            let c = b"0123456789abcdef"[v as usize];
+            c
+        })
+        .collect()
+}
+
+fn random_ctor(n: usize, d: usize, r: &mut rand::rngs::StdRng, cfg: &HistCfg) -> Value {
+    loop {
+        match r.gen_range(0..12) {
+            0 => return json!({"op": "zero", "d": d, "n": n}),
+            1 => return json!({"op": "one", "d": d, "n": n}),
+            2 => {
+                if n > 0 {
+                    return json!({"op": "nth_var", "d": d, "n": n, "i": r.gen_range(0..n)});
+                }
+            }
+            3 => return json!({"op": "parity", "d": d, "n": n}),
+            4 => return json!({"op": "majority", "d": d, "n": n}),
+            5 => return ctor_k("threshold", d, n, r.gen_range(0..=n + 2)),
+            6 => return ctor_k("equals", d, n, r.gen_range(0..=n + 2)),
+            7 => {
+                let c: u64 = r.gen::<u64>() & ((1u64 << (n + 1)) - 1);
+                return json!({"op": "symmetric", "d": d, "n": n, "cb": crate::exec::bits_of(c), "c_s": c.to_string()});
+            }
+            8 => return from_hex(d, n, &valid_hex(n, r)),
+            9 => {
+                if cfg.allow_random {
+                    return json!({"op": "random", "d": d, "n": n});
+                }
+            }
+            _ => return load(d, n, &random_on(n, r)),
+        }
+    }
+}
+
+pub fn history(n: usize, r: &mut rand::rngs::StdRng, cfg: &HistCfg) -> Vec<Value> {
+    let mut ops: Vec<Value> = Vec::new();
+    let nslots = 5usize;
+    for d in 0..3 {
+        ops.push(random_ctor(n, d, r, cfg));
+    }
+    let mut filled = 3usize; // slots 0..filled are defined
+    let mut step = 0;
+    while step < cfg.len {
+        step += 1;
+        let a = r.gen_range(0..filled);
+        let b = r.gen_range(0..filled);
+        let d = r.gen_range(0..(filled + 1).min(nslots));
+        let mut wrote = Some(d);
+        match r.gen_range(0..17) {
+            0 | 1 => {
+                let g = ["not", "and", "or", "xor"][r.gen_range(0..4)];
+                let f = if g == "not" { NOT_FORMS[r.gen_range(0..4)] } else { BIN_FORMS[r.gen_range(0..8)] };
+                if is_inplace(f) {
+                    ops.push(json!({"op": "logic", "g": g, "f": f, "a": a, "b": b, "d": a}));
+                    wrote = None;
+                } else {
+                    ops.push(json!({"op": "logic", "g": g, "f": f, "a": a, "b": b, "d": d}));
+                }
+            }
+            2 => {
+                if n == 0 {
+                    continue;
+                }
+                let inpl = r.gen::<bool>();
+                ops.push(json!({"op": "flip", "f": if inpl {"inplace"} else {"copy"}, "a": a, "d": if inpl {a} else {d}, "i": r.gen_range(0..n)}));
+                if inpl {
+                    wrote = None;
+                }
+            }
+            3 => {
+                if n == 0 {
+                    continue;
+                }
+                let inpl = r.gen::<bool>();
+                ops.push(json!({"op": "swap", "f": if inpl {"inplace"} else {"copy"}, "a": a, "d": if inpl {a} else {d}, "i": r.gen_range(0..n), "j": r.gen_range(0..n)}));
+                if inpl {
+                    wrote = None;
+                }
+            }
+            4 => {
+                if n < 2 {
+                    continue;
+                }
+                let inpl = r.gen::<bool>();
+                ops.push(json!({"op": "swapadj", "f": if inpl {"inplace"} else {"copy"}, "a": a, "d": if inpl {a} else {d}, "i": r.gen_range(0..n - 1)}));
+                if inpl {
+                    wrote = None;
+                }
+            }
+            5 => {
+                if n == 0 {
+                    continue;
+                }
+                let d1 = (d + 1) % (filled + 1).min(nslots);
+                if d1 == d {
+                    continue;
+                }
+                ops.push(json!({"op": "cofactors", "a": a, "d0": d, "d1": d1, "i": r.gen_range(0..n)}));
+                filled = filled.max(d + 1).max(d1 + 1);
+                wrote = None;
+            }
+            6 => {
+                if n == 0 {
+                    continue;
+                }
+                ops.push(json!({"op": "fromcof", "a": a, "b": b, "d": d, "i": r.gen_range(0..n)}));
+            }
+            7 => {
+                let f = ["set", "unset", "val1", "val0"][r.gen_range(0..4)];
+                ops.push(json!({"op": "setbit", "a": a, "m": r.gen_range(0..dom(n)), "f": f}));
+                wrote = None;
+            }
+            8 => {
+                ops.push(json!({"op": "vnext", "a": a}));
+                wrote = None;
+            }
+            9 => {
+                if n > cfg.canon_max_n {
+                    continue;
+                }
+                let kind = ["p", "n", "npn"][r.gen_range(0..3)];
+                ops.push(json!({"op": "canon", "kind": kind, "a": a, "d": d}));
+            }
+            10 => ops.push(random_ctor(n, d, r, cfg)),
+            11 | 12 => {
+                if cfg.relforms.is_empty() {
+                    continue;
+                }
+                let f = cfg.relforms[r.gen_range(0..cfg.relforms.len())];
+                ops.push(rel(a, b, f));
+                wrote = None;
+            }
+            13 => {
+                if !cfg.reload {
+                    continue;
+                }
+                // the same function rebuilt from its values: must be indistinguishable from the original
+                ops.push(json!({"op": "reload", "a": a, "d": 7}));
+                for f in ["eq", "hasheq", "cmp", "ne"] {
+                    ops.push(rel(a, 7, f));
+                }
+                wrote = None;
+            }
+            _ => {
+                if !cfg.queries {
+                    continue;
+                }
+                wrote = None;
+                match r.gen_range(0..7) {
+                    0 if n > 0 => ops.push(json!({"op": "decomp", "a": a, "i": r.gen_range(0..n)})),
+                    1 if n > 0 => ops.push(json!({"op": "unate", "a": a, "i": r.gen_range(0..n), "f": if r.gen() {"pos"} else {"neg"}})),
+                    2 => ops.push(json!({"op": "text", "a": a, "f": TEXT_FORMS[r.gen_range(0..6)]})),
+                    3 => ops.push(json!({"op": "bdd", "xs": [a, b]})),
+                    4 => ops.push(json!({"op": "info", "a": a})),
+                    5 => ops.push(json!({"op": "value", "a": a, "m": r.gen_range(0..dom(n)), "f": if r.gen() {"value"} else {"get_bit"}})),
+                    _ => ops.push(json!({"op": "bdd", "xs": [a]})),
+                }
+            }
+        }
+        if let Some(w) = wrote {
+            filled = filled.max(w + 1);
+        }
+    }
+    ops
+}
+
+/// C02: random histories over the whole table API; well-formedness of every value produced and
+/// extensionality of ==, hash and Ordering::Equal
+pub fn gen_c02(thorough: bool, seed: u64) -> Vec<Episode> {
+    let mut eps = Vec::new();
+    let mut r = rng(seed, 2);
+    let cfg = HistCfg {
+        len: 30,
+        queries: false,
+        relforms: &["eq", "ne", "cmp", "pcmp", "hasheq"],
+        canon_max_n: 6,
+        allow_random: true,
+        reload: true,
+    };
+    let per_n = if thorough { 300 } else { 10 };
+    for n in 0..=12usize {
+        let k = if n >= 10 { per_n / 2 } else { per_n };
+        for _ in 0..k.max(3) {
+            let ops = history(n, &mut r, &cfg);
+            eps.push(Episode { n, tys: tys_for(n), ops });
+        }
+    }
+    eps
+}
+
+// ---------------------------------------------------------------------------------------------
+// C17
+
+fn with_usize(mut v: Value, name: &str, x: usize) -> Value {
+    let m = v.as_object_mut().unwrap();
+    crate::exec::put_usize(m, name, x);
+    v
+}
+
+/// C17: invalid indices, assignments, operand sizes and slice lengths; plus a valid workload
+/// whose results must be identical in both build profiles
+pub fn gen_c17(thorough: bool, seed: u64) -> Vec<Episode> {
+    let mut eps = Vec::new();
+    let mut r = rng(seed, 17);
+    let max_n = if thorough { 8 } else { 6 };
+    for n in 0..=max_n {
+        let bad_idx: Vec<usize> = if thorough {
+            let mut v: Vec<usize> = (n..=n + 70).collect();
+            v.extend([usize::MAX, usize::MAX - 1, 1usize << 32, 1usize << 63]);
+            v
+        } else {
+            let mut v = vec![n, n + 1, n + 2, n + 5, 31, 32, 58, 63, 64, 65, 69, 70, n + 64, n + 70, usize::MAX];
+            v.retain(|&x| x >= n);
+            v.sort();
+            v.dedup();
+            v
+        };
+        let d = dom(n);
+        let bad_asg: Vec<usize> = if thorough {
+            let mut v: Vec<usize> = (d..=d + 70).collect();
+            v.extend([usize::MAX, 1usize << 32, 1usize << 63, d * 2, d * 64]);
+            v
+        } else {
+            vec![d, d + 1, d + 63, d + 64, d + 70, 2 * d, 64 * d, usize::MAX]
+        };
+        let f0 = random_on(n, &mut r);
+        let f1 = random_on(n, &mut r);
+        let good = if n > 0 { r.gen_range(0..n) } else { 0 };
+        let mut all: Vec<Value> = Vec::new();
+        for &i in &bad_idx {
+            all.push(with_usize(json!({"op": "nth_var", "d": 2, "n": n}), "i", i));
+            for f in ["copy", "inplace"] {
+                all.push(with_usize(json!({"op": "flip", "f": f, "a": 0, "d": if f == "copy" {2} else {0}}), "i", i));
+                all.push(with_usize(json!({"op": "swapadj", "f": f, "a": 0, "d": if f == "copy" {2} else {0}}), "i", i));
+                // one bad and one good index, both orders; both bad
+                if n > 0 {
+                    all.push(with_usize(json!({"op": "swap", "f": f, "a": 0, "d": if f == "copy" {2} else {0}, "j": good}), "i", i));
+                    all.push(with_usize(json!({"op": "swap", "f": f, "a": 0, "d": if f == "copy" {2} else {0}, "i": good}), "j", i));
+                }
+                all.push(with_usize(with_usize(json!({"op": "swap", "f": f, "a": 0, "d": if f == "copy" {2} else {0}}), "i", i), "j", i));
+            }
+            all.push(with_usize(json!({"op": "cofactors", "a": 0, "d0": 2, "d1": 3}), "i", i));
+            all.push(with_usize(json!({"op": "fromcof", "a": 0, "b": 1, "d": 2}), "i", i));
+            all.push(with_usize(json!({"op": "decomp", "a": 0}), "i", i));
+            all.push(with_usize(json!({"op": "unate", "a": 0, "f": "pos"}), "i", i));
+            all.push(with_usize(json!({"op": "unate", "a": 0, "f": "neg"}), "i", i));
+        }
+        // the last valid index + 1 for swap_adjacent
+        if n >= 1 {
+            for f in ["copy", "inplace"] {
+                all.push(json!({"op": "swapadj", "f": f, "a": 0, "d": if f == "copy" {2} else {0}, "i": n - 1}));
+            }
+        }
+        for &m in &bad_asg {
+            for f in ["value", "get_bit"] {
+                all.push(with_usize(json!({"op": "value", "a": 0, "f": f}), "m", m));
+            }
+            for f in ["set", "unset", "val1", "val0"] {
+                all.push(with_usize(json!({"op": "setbit", "a": 0, "f": f}), "m", m));
+            }
+        }
+        for chunk in all.chunks(40) {
+            let mut ops = vec![load(0, n, &f0), load(1, n, &f1)];
+            ops.extend(chunk.iter().cloned());
+            // the tables must have survived the panics unchanged
+            ops.push(json!({"op": "copy", "a": 0, "d": 4}));
+            eps.push(Episode { n, tys: "both", ops });
+        }
+        // wrong block-slice lengths
+        let nb = if n <= 6 { 1 } else { 1usize << (n - 6) };
+        let mut ops: Vec<Value> = Vec::new();
+        for k in [0usize, 1, 2, 3, nb + 1, 2 * nb, nb / 2] {
+            if k == nb {
+                continue;
+            }
+            ops.push(json!({"op": "load", "d": 0, "n": n, "on": [], "nbk": k}));
+        }
+        eps.push(Episode { n, tys: "both", ops });
+        // size-mismatched operands (dynamic Lut only)
+        for n2 in 0..=max_n + 1 {
+            if n2 == n {
+                continue;
+            }
+            if !thorough && (n + n2) % 2 == 0 && n2 != n + 1 {
+                continue;
+            }
+            let g = random_on(n2, &mut r);
+            let mut ops = vec![load(0, n, &f0), load(1, n2, &g)];
+            for gname in ["and", "or", "xor"] {
+                for f in BIN_FORMS {
+                    let d = if is_inplace(f) { 0 } else { 2 };
+                    ops.push(json!({"op": "logic", "g": gname, "f": f, "a": 0, "b": 1, "d": d}));
+                    ops.push(json!({"op": "logic", "g": gname, "f": f, "a": 1, "b": 0, "d": if d == 0 {1} else {2}}));
+                }
+            }
+            if n > 0 && n2 > 0 {
+                let i = r.gen_range(0..n.min(n2));
+                ops.push(json!({"op": "fromcof", "a": 0, "b": 1, "d": 2, "i": i}));
+                ops.push(json!({"op": "fromcof", "a": 1, "b": 0, "d": 2, "i": i}));
+            }
+            ops.push(json!({"op": "bdd", "xs": [0, 1]}));
+            ops.push(json!({"op": "bdd", "xs": [1, 0, 0]}));
+            ops.push(json!({"op": "copy", "a": 0, "d": 4}));
+            ops.push(json!({"op": "copy", "a": 1, "d": 5}));
+            eps.push(Episode { n, tys: "lut", ops });
+        }
+        // valid workload: identical results expected in every profile
+        let cfg = HistCfg {
+            len: 25,
+            queries: true,
+            relforms: &REL_FORMS,
+            canon_max_n: 5,
+            allow_random: false,
+            reload: false,
+        };
+        for _ in 0..(if thorough { 12 } else { 3 }) {
+            let ops = history(n, &mut r, &cfg);
+            eps.push(Episode { n, tys: "both", ops });
+        }
+    }
+    // named constructors with very large counts are valid arguments (C11): same result everywhere
+    for n in [0usize, 1, 3, 6, 7] {
+        let mut ops: Vec<Value> = Vec::new();
+        for k in [63usize, 64, 65, usize::MAX] {
+            ops.push(ctor_k("threshold", 0, n, k));
+            ops.push(ctor_k("equals", 1, n, k));
+        }
+        eps.push(Episode { n, tys: "both", ops });
+    }
+    // hooked successor on full low words (overflow checks)
+    for n in [6usize, 7, 8] {
+        let d = dom(n);
+        let mut ops = vec![load(0, n, &(0..64).collect::<Vec<usize>>()), json!({"op": "vnext", "a": 0})];
+        ops.push(load(1, n, &(0..d).collect::<Vec<usize>>()));
+        ops.push(json!({"op": "vnext", "a": 1}));
+        eps.push(Episode { n, tys: "both", ops });
+    }
+    eps
+}
+
+// ---------------------------------------------------------------------------------------------
+// C10
+
+/// C10 phase A: a lock-step workload over every operation common to Lut and LutN
+pub fn gen_c10a(thorough: bool, seed: u64) -> Vec<Episode> {
+    let mut eps = Vec::new();
+    let mut r = rng(seed, 10);
+    let cfg = HistCfg {
+        len: 40,
+        queries: true,
+        relforms: &REL_FORMS,
+        canon_max_n: 6,
+        allow_random: false,
+        reload: false,
+    };
+    for n in 0..=12usize {
+        let k = if thorough { 40 } else if n >= 10 { 3 } else { 6 };
+        for _ in 0..k {
+            let ops = history(n, &mut r, &cfg);
+            eps.push(Episode { n, tys: "both", ops });
+        }
+        // one of each operation kind with all in-range arguments (sampled above 6 variables)
+        let f = random_on(n, &mut r);
+        let g = random_on(n, &mut r);
+        let mut ops = vec![load(0, n, &f), load(1, n, &g)];
+        let idx: Vec<usize> = if n <= 6 || thorough { (0..n).collect() } else { vec![0, 5, 6, n - 1] };
+        for &i in &idx {
+            ops.push(json!({"op": "flip", "f": "copy", "a": 0, "d": 2, "i": i}));
+            ops.push(json!({"op": "cofactors", "a": 0, "d0": 2, "d1": 3, "i": i}));
+            ops.push(json!({"op": "fromcof", "a": 0, "b": 1, "d": 2, "i": i}));
+            ops.push(json!({"op": "decomp", "a": 0, "i": i}));
+            ops.push(json!({"op": "unate", "a": 0, "i": i, "f": "pos"}));
+            ops.push(json!({"op": "unate", "a": 1, "i": i, "f": "neg"}));
+            for &j in &idx {
+                ops.push(json!({"op": "swap", "f": "copy", "a": 0, "d": 2, "i": i, "j": j}));
+            }
+            if i + 1 < n {
+                ops.push(json!({"op": "swapadj", "f": "copy", "a": 1, "d": 2, "i": i}));
+            }
+        }
+        for fm in TEXT_FORMS {
+            ops.push(json!({"op": "text", "a": 0, "f": fm}));
+        }
+        for fm in REL_FORMS {
+            ops.push(rel(0, 1, fm));
+        }
+        ops.push(json!({"op": "bdd", "xs": [0, 1]}));
+        ops.push(json!({"op": "info", "a": 0}));
+        if n <= 7 {
+            for kind in ["p", "n", "npn"] {
+                if kind != "n" && n == 7 && !thorough {
+                    continue;
+                }
+                ops.push(json!({"op": "canon", "kind": kind, "a": 0, "d": 2}));
+            }
+        }
+        for op in ["zero", "one", "parity", "majority"] {
+            ops.push(json!({"op": op, "d": 2, "n": n}));
+        }
+        for k in 0..=n + 1 {
+            ops.push(ctor_k("threshold", 2, n, k));
+            ops.push(ctor_k("equals", 3, n, k));
+        }
+        ops.push(json!({"op": "iter_start", "n": n}));
+        for _ in 0..6 {
+            ops.push(json!({"op": "iter_next", "d": 2}));
+        }
+        ops.push(json!({"op": "vnext", "a": 0}));
+        eps.push(Episode { n, tys: "both", ops });
+    }
+    eps
+}
+
+/// C10 phase B: conversions between the two types and with the integer types
+pub fn gen_c10b(thorough: bool, seed: u64) -> Vec<Episode> {
+    let mut eps = Vec::new();
+    let mut r = rng(seed, 110);
+    for n in 0..=12usize {
+        let tables = structured(n, &mut r);
+        let cnt = if thorough { tables.len() } else { 5 };
+        for t in tables.iter().rev().take(cnt) {
+            let mut ops = vec![load(0, n, t)];
+            ops.push(json!({"op": "conv_rt", "a": 0, "d": 1, "n": n}));
+            // conversion to every static size: fails exactly when the sizes differ
+            for m in 0..=12usize {
+                if !thorough && m != n && (m + n) % 4 != 0 && !(m <= 6 && n <= 6) {
+                    continue;
+                }
+                ops.push(json!({"op": "conv_try", "a": 0, "d": 2, "n": m}));
+            }
+            eps.push(Episode { n, tys: "lut", ops });
+        }
+    }
+    // integer conversions: all 256 values for u8, structured + random for the wider ones
+    let mut ops: Vec<Value> = Vec::new();
+    for v in 0..256u64 {
+        ops.push(json!({"op": "conv_int", "w": 8, "d": 0, "vb": crate::exec::bits_of(v)}));
+        if ops.len() >= 64 {
+            eps.push(Episode { n: 3, tys: "lut", ops });
+            ops = Vec::new();
+        }
+    }
+    for w in [16u32, 32, 64] {
+        let mut vals: Vec<u64> = vec![0, 1, !0u64, 0x8000_0000_0000_0000, 0x8000_8000_8000_8000, 0xaaaa_aaaa_aaaa_aaaa, 0x0000_0001_0001_0116];
+        for b in 0..w {
+            vals.push(1u64 << b);
+        }
+        for _ in 0..(if thorough { 400 } else { 40 }) {
+            vals.push(r.gen());
+        }
+        let mask = if w == 64 { !0u64 } else { (1u64 << w) - 1 };
+        let mut ops: Vec<Value> = Vec::new();
+        for v in vals {
+            ops.push(json!({"op": "conv_int", "w": w, "d": 0, "vb": crate::exec::bits_of(v & mask)}));
+            if ops.len() >= 64 {
+                eps.push(Episode { n: 6, tys: "lut", ops });
+                ops = Vec::new();
+            }
+        }
+        if !ops.is_empty() {
+            eps.push(Episode { n: 6, tys: "lut", ops });
+        }
+    }
+    eps
+}
+
+// ---------------------------------------------------------------------------------------------
+// C04 / C05
+
+fn canon_episode(n: usize, f: &[usize], kinds: &[&str], feed_back: bool) -> Episode {
+    let mut ops = vec![load(0, n, f)];
+    for (k, kind) in kinds.iter().enumerate() {
+        let d = 1 + k;
+        ops.push(json!({"op": "canon", "kind": kind, "a": 0, "d": d}));
+        if feed_back {
+            // the representative is itself an input that is already canonical
+            ops.push(json!({"op": "canon", "kind": kind, "a": d, "d": 4 + k}));
+        }
+    }
+    Episode { n, tys: tys_for(n), ops }
+}
+
+fn symmetric_like(n: usize, r: &mut rand::rngs::StdRng) -> Vec<usize> {
+    // totally symmetric up to input polarity: f(x) = s(popcount(x xor pol))
+    let c: u64 = r.gen();
+    let pol: usize = r.gen_range(0..dom(n));
+    on_from_fn(n, |m| (c >> popcount(m ^ pol)) & 1 == 1)
+}
+
+/// C04 and C05 share the driver: canonization calls with the walk hook recorded.  `heavy` bounds
+/// the number of calls whose exact orbit minimum is expensive for the specification (C04); the
+/// certificate check (C05) is cheap, so C05 drives many more functions.
+pub fn gen_canon(thorough: bool, seed: u64, c05: bool) -> Vec<Episode> {
+    let mut eps = Vec::new();
+    let mut r = rng(seed, if c05 { 5 } else { 4 });
+    let all_kinds = ["p", "n", "npn"];
+    // every function of up to 3 variables (4 in the thorough tier), all three groups
+    let max_exh = if thorough { 4 } else { 3 };
+    for n in 0..=max_exh {
+        let total: u64 = 1u64 << (1u64 << n);
+        for f in 0..total {
+            if n == 4 && c05 == false && f % 4 != (seed % 4) {
+                continue; // C04 at n = 4: a quarter of the functions per seed (16384), exact minimum each
+            }
+            let on: Vec<usize> = (0..dom(n)).filter(|&m| (f >> m) & 1 == 1).collect();
+            eps.push(canon_episode(n, &on, &all_kinds, n <= 3 || c05));
+        }
+    }
+    let scale = |q: usize, t: usize| if thorough { t } else { q };
+    for n in (max_exh + 1)..=8usize {
+        let tables = structured(n, &mut r);
+        // (count for npn, count for p, count for n)
+        let (c_npn, c_p, c_n) = if c05 {
+            match n {
+                4 => (300, 300, 300),
+                5 => (scale(60, 600), scale(100, 600), scale(200, 600)),
+                6 => (scale(6, 40), scale(40, 300), scale(100, 400)),
+                7 => (scale(1, 4), scale(3, 20), scale(30, 200)),
+                _ => (scale(0, 1), scale(1, 3), scale(12, 60)),
+            }
+        } else {
+            match n {
+                4 => (100, 100, 100),
+                5 => (scale(16, 300), scale(60, 600), scale(100, 600)),
+                6 => (scale(3, 30), scale(20, 200), scale(60, 300)),
+                7 => (scale(1, 3), scale(3, 20), scale(20, 100)),
+                _ => (scale(0, 1), scale(1, 3), scale(8, 40)),
+            }
+        };
+        for (kind, cnt) in [("npn", c_npn), ("p", c_p), ("n", c_n)] {
+            for k in 0..cnt {
+                let f = match k % 4 {
+                    0 => random_on(n, &mut r),
+                    1 => symmetric_like(n, &mut r),
+                    2 => tables[r.gen_range(0..tables.len())].clone(),
+                    _ => sparse_on(n, &mut r, 1 + k % 5),
+                };
+                let heavy = kind == "npn" && n >= 6;
+                eps.push(canon_episode(n, &f, &[kind], !heavy));
+            }
+        }
+    }
+    eps
+}
